@@ -166,6 +166,12 @@ type Plain struct {
 	Y *string
 }
 
+// Detail is the object value of Item's Expensive fields detail / scaled.
+type Detail struct {
+	Name string
+	W    int64
+}
+
 // Team is a BY-VALUE object holding a slice: its Go source value is not
 // comparable, so the executor cannot use it as part of a reactive cache key.
 type Team struct {
@@ -224,6 +230,9 @@ func OracleCtx(ctx context.Context) context.Context {
 func isOracle(ctx context.Context) bool { return ctx.Value(oracleKey{}) != nil }
 
 const NumItems = 8
+
+// ClockEpoch is the length of an epoch of the logical clock.
+const ClockEpoch = 10
 
 // BoomShapes is the number of error shapes of the failing field: 1 plain
 // error, 2 safe error, 3 error wrapping context.Canceled of a resolver-owned
@@ -602,6 +611,37 @@ func (w *World) buildSchema() *graphql.Schema {
 		}
 		return val.(int64), nil
 	})
+	// timed is time-driven data on a LOGICAL clock (cell "clock", advanced only
+	// by the harness): its value is the clock's epoch (clock/ClockEpoch) and
+	// it changes when the clock passes the next epoch boundary - the deadline.
+	// The resolver follows the README pattern: judge "not yet expired", then
+	// register the deadline. The registration is a logical timer (the clock
+	// cell's resource, invalidated when the harness advances the clock) - and
+	// when the deadline turns out to have passed between the judgement and the
+	// registration, reactive.InvalidateAt / InvalidateAfter with a moment that
+	// is already over, which must re-run the computation at once.
+	v.FieldFunc("timed", func(ctx context.Context, v *View) int64 {
+		c := w.cells["clock"]
+		l := c.load().(int64)
+		if isOracle(ctx) {
+			return l / ClockEpoch
+		}
+		w.Log.Add(Event{Kind: EvResolve, Tag: v.tag, Cell: "clock"})
+		deadline := (l/ClockEpoch + 1) * ClockEpoch
+		w.gateAt(ctx, v.tag, "clock", 0) // the harness may advance the clock here
+		c.register(ctx)                  // logical timer for the deadline
+		if l2 := c.load().(int64); l2 >= deadline {
+			switch l2 % 3 {
+			case 0:
+				reactive.InvalidateAt(ctx, time.Now().Add(-time.Duration(l2-deadline+1)*time.Millisecond))
+			case 1:
+				reactive.InvalidateAfter(ctx, 0)
+			default:
+				reactive.InvalidateAfter(ctx, -time.Duration(l2-deadline+1)*time.Millisecond)
+			}
+		}
+		return l / ClockEpoch
+	})
 	v.FieldFunc("pu", func(ctx context.Context, v *View) *PU {
 		return uvalPU(w.read(ctx, v.tag, "pu").(UVal))
 	})
@@ -713,6 +753,19 @@ func (w *World) buildSchema() *graphql.Schema {
 	it.FieldFunc("cost", func(ctx context.Context, i *Item) int64 {
 		return i.w.read(ctx, i.tag, fmt.Sprintf("item:%d", i.Id)).(ItemVal).W
 	}, schemabuilder.Expensive)
+	// detail / scaled: Expensive OBJECT-valued fields. Items are interned, so a
+	// query reaches the same source pointer along several paths (items, pick,
+	// kids, the same list under two aliases) and may select these fields there
+	// under the same response key with different sub-selections or arguments.
+	it.FieldFunc("detail", func(ctx context.Context, i *Item) *Detail {
+		iv := i.w.read(ctx, i.tag, fmt.Sprintf("item:%d", i.Id)).(ItemVal)
+		return &Detail{Name: iv.Name, W: iv.W}
+	}, schemabuilder.Expensive)
+	it.FieldFunc("scaled", func(ctx context.Context, i *Item, args struct{ By int64 }) *Detail {
+		iv := i.w.read(ctx, i.tag, fmt.Sprintf("item:%d", i.Id)).(ItemVal)
+		return &Detail{Name: iv.Name, W: iv.W * args.By}
+	}, schemabuilder.Expensive)
+	sb.Object("Detail", Detail{})
 	tm := sb.Object("Team", Team{})
 	tm.FieldFunc("size", func(ctx context.Context, t Team) int64 {
 		return t.w.read(ctx, t.tag, fmt.Sprintf("team:%d", t.Id)).(int64)
